@@ -192,3 +192,119 @@ package parser
 //@   assume after parse.EOF[string]().Parse#1: pi.charIndex == ghost(E0)
 //@   assert before NewExpression#2: arg0 == trimmed(sub(pi.s, arg1.Index, pi.charIndex)) && arg2.Index == pi.charIndex
 //@   assert before NewExpression#3: arg0 == trimmed(sub(pi.s, arg1.Index, pi.charIndex)) && arg2.Index == pi.charIndex
+
+// ---------------------------------------------------------------------------
+// C06 (totality, thin safety contracts): for every input, these parser functions perform no out-of-range index or
+// slice operation, no nil dereference and no failing type assertion in their own statements, keep the index inside
+// the input, never change the input text and never leave the index before where they started - given the same of the
+// parsers they call (the interface contract of parse.Parser above, the contracts of parseGo / parseGoSliceArgs /
+// parseGoFuncDecl, the model of parse.Input). Found by a zero-annotation sweep (govc sweep) with these default
+// clauses; functions of the package that are not listed did not come out (loops or library calls that need
+// more than the default invariant) or are outside the executor's subset.
+//@ func addTrailingSpaceAndValidate [C06]
+//@   requires inputOK(pi)
+//@   modifies *
+//@   loop 0 invariant inputOK(pi) && pi.s == old(pi.s) && old(pi.charIndex) <= pi.charIndex
+//@   ensures inputOK(pi) && pi.s == old(pi.s) && old(pi.charIndex) <= pi.charIndex
+
+//@ func (attributeElseExpressionParser) Parse [C06]
+//@   requires inputOK(in)
+//@   modifies *
+//@   loop 0 invariant inputOK(in) && in.s == old(in.s) && old(in.charIndex) <= in.charIndex
+//@   ensures inputOK(in) && in.s == old(in.s) && old(in.charIndex) <= in.charIndex
+
+//@ func (attributeParser) Parse [C06]
+//@   requires inputOK(in)
+//@   modifies *
+//@   loop 0 invariant inputOK(in) && in.s == old(in.s) && old(in.charIndex) <= in.charIndex
+//@   ensures inputOK(in) && in.s == old(in.s) && old(in.charIndex) <= in.charIndex
+
+//@ func (attributeValueParser) Parse [C06]
+//@   requires inputOK(pi)
+//@   modifies *
+//@   loop 0 invariant inputOK(pi) && pi.s == old(pi.s) && old(pi.charIndex) <= pi.charIndex
+//@   ensures inputOK(pi) && pi.s == old(pi.s) && old(pi.charIndex) <= pi.charIndex
+
+//@ func (attributesParser) Parse [C06]
+//@   requires inputOK(in)
+//@   modifies *
+//@   loop 0 invariant inputOK(in) && in.s == old(in.s) && old(in.charIndex) <= in.charIndex
+//@   ensures inputOK(in) && in.s == old(in.s) && old(in.charIndex) <= in.charIndex
+
+//@ func (callTemplateExpressionParser) Parse [C06]
+//@   requires inputOK(pi)
+//@   modifies *
+//@   loop 0 invariant inputOK(pi) && pi.s == old(pi.s) && old(pi.charIndex) <= pi.charIndex
+//@   ensures inputOK(pi) && pi.s == old(pi.s) && old(pi.charIndex) <= pi.charIndex
+
+//@ func (conditionalAttributeParser) Parse [C06]
+//@   requires inputOK(pi)
+//@   modifies *
+//@   loop 0 invariant inputOK(pi) && pi.s == old(pi.s) && old(pi.charIndex) <= pi.charIndex
+//@   ensures inputOK(pi) && pi.s == old(pi.s) && old(pi.charIndex) <= pi.charIndex
+
+//@ func (elseExpressionParser) Parse [C06]
+//@   requires inputOK(in)
+//@   modifies *
+//@   loop 0 invariant inputOK(in) && in.s == old(in.s) && old(in.charIndex) <= in.charIndex
+//@   ensures inputOK(in) && in.s == old(in.s) && old(in.charIndex) <= in.charIndex
+
+//@ func (expressionParser) Parse [C06]
+//@   requires inputOK(pi)
+//@   modifies *
+//@   loop 0 invariant inputOK(pi) && pi.s == old(pi.s) && old(pi.charIndex) <= pi.charIndex
+//@   ensures inputOK(pi) && pi.s == old(pi.s) && old(pi.charIndex) <= pi.charIndex
+
+//@ func (forExpressionParser) Parse [C06]
+//@   requires inputOK(pi)
+//@   modifies *
+//@   loop 0 invariant inputOK(pi) && pi.s == old(pi.s) && old(pi.charIndex) <= pi.charIndex
+//@   ensures inputOK(pi) && pi.s == old(pi.s) && old(pi.charIndex) <= pi.charIndex
+
+//@ func (goMultiLineCommentParser) Parse [C06]
+//@   requires inputOK(pi)
+//@   modifies *
+//@   loop 0 invariant inputOK(pi) && pi.s == old(pi.s) && old(pi.charIndex) <= pi.charIndex
+//@   ensures inputOK(pi) && pi.s == old(pi.s) && old(pi.charIndex) <= pi.charIndex
+
+//@ func (goSingleLineCommentParser) Parse [C06]
+//@   requires inputOK(pi)
+//@   modifies *
+//@   loop 0 invariant inputOK(pi) && pi.s == old(pi.s) && old(pi.charIndex) <= pi.charIndex
+//@   ensures inputOK(pi) && pi.s == old(pi.s) && old(pi.charIndex) <= pi.charIndex
+
+//@ func (htmlCommentParser) Parse [C06]
+//@   requires inputOK(pi)
+//@   modifies *
+//@   loop 0 invariant inputOK(pi) && pi.s == old(pi.s) && old(pi.charIndex) <= pi.charIndex
+//@   ensures inputOK(pi) && pi.s == old(pi.s) && old(pi.charIndex) <= pi.charIndex
+
+//@ func (ifExpressionParser) Parse [C06]
+//@   requires inputOK(pi)
+//@   modifies *
+//@   loop 0 invariant inputOK(pi) && pi.s == old(pi.s) && old(pi.charIndex) <= pi.charIndex
+//@   ensures inputOK(pi) && pi.s == old(pi.s) && old(pi.charIndex) <= pi.charIndex
+
+//@ func peekPrefix [C06]
+//@   requires inputOK(pi)
+//@   modifies *
+//@   loop 0 invariant inputOK(pi) && pi.s == old(pi.s) && old(pi.charIndex) <= pi.charIndex
+//@   ensures inputOK(pi) && pi.s == old(pi.s) && old(pi.charIndex) <= pi.charIndex
+
+//@ func (rawElementParser) Parse [C06]
+//@   requires inputOK(pi)
+//@   modifies *
+//@   loop 0 invariant inputOK(pi) && pi.s == old(pi.s) && old(pi.charIndex) <= pi.charIndex
+//@   ensures inputOK(pi) && pi.s == old(pi.s) && old(pi.charIndex) <= pi.charIndex
+
+//@ func (switchExpressionParser) Parse [C06]
+//@   requires inputOK(pi)
+//@   modifies *
+//@   loop 0 invariant inputOK(pi) && pi.s == old(pi.s) && old(pi.charIndex) <= pi.charIndex
+//@   ensures inputOK(pi) && pi.s == old(pi.s) && old(pi.charIndex) <= pi.charIndex
+
+//@ func (templElementExpressionParser) Parse [C06]
+//@   requires inputOK(pi)
+//@   modifies *
+//@   loop 0 invariant inputOK(pi) && pi.s == old(pi.s) && old(pi.charIndex) <= pi.charIndex
+//@   ensures inputOK(pi) && pi.s == old(pi.s) && old(pi.charIndex) <= pi.charIndex
